@@ -43,6 +43,9 @@ pub struct CorScn {
     pub muts: Vec<Mutation>,
     /// 0 = plain cursor, else BufReader capacity
     pub rbuf: u32,
+    /// number of rows the header of the (valid, one-row) .dbf is made to declare; 0 = leave it honest
+    #[serde(default)]
+    pub dbf_rows: u32,
 }
 
 pub struct BaseFile {
@@ -301,6 +304,41 @@ pub fn drive(ctx: &mut Ctx, shp: &[u8], shx: &[u8], dbf: &[u8], ty: i32, n: usiz
         }
         let _ = j.call("Reader::read", || r.read().map(|v| v.len()).unwrap_or(0));
     }
+    // by path, under names that are not valid UTF-8 (a Latin-1 name from an older system; Unix file
+    // systems allow them), without and with the index next to it: one case in 64, chosen by content
+    #[cfg(unix)]
+    if crate::prng::fnv(shp) % 64 == 0 {
+        use std::os::unix::ffi::OsStrExt;
+        let dir = crate::scratch_dir();
+        for (k, name) in [&b"caf\xE9-c07.shp"[..], &b"CAF\xC9-C07.SHP"[..]].iter().enumerate() {
+            let path = dir.join(std::ffi::OsStr::from_bytes(name));
+            if std::fs::write(&path, shp).is_err() {
+                continue;
+            }
+            let shx_path = path.with_extension(if k == 0 { "shx" } else { "SHX" });
+            for with_index in [false, true] {
+                if with_index && std::fs::write(&shx_path, shx).is_err() {
+                    continue;
+                }
+                j.input_len = shp.len() + if with_index { shx.len() } else { 0 };
+                let _ = j.call("from_path(non-utf8 name)", || shapefile::ShapeReader::from_path(&path).map(|mut r| drain_count(r.iter_shapes(), cap)).is_ok());
+                let _ = j.call("read_shapes(non-utf8 name)", || shapefile::read_shapes(&path).map(|v| v.len()).unwrap_or(0));
+            }
+            let _ = std::fs::remove_file(&path);
+            let _ = std::fs::remove_file(&shx_path);
+        }
+        j.ctx.stats.reach("by-path-under-a-non-utf8-name");
+    }
+    // the complete reader without index (the .shx is optional): the bulk reads
+    j.input_len = shp.len() + dbf.len();
+    let opened = j.call("Reader::new(noshx)", || -> Result<Reader<Src, Src>, shapefile::Error> { Ok(Reader::new(ShapeReader::new(src(shp, rbuf))?, shapefile::dbase::Reader::new(src(dbf, rbuf))?)) });
+    if let Some(Ok(mut r)) = opened {
+        let _ = j.call("Reader::read(noshx)", || r.read().map(|v| v.len()).unwrap_or(0));
+    }
+    let opened = j.call("Reader::new(noshx)", || -> Result<Reader<Src, Src>, shapefile::Error> { Ok(Reader::new(ShapeReader::new(src(shp, rbuf))?, shapefile::dbase::Reader::new(src(dbf, rbuf))?)) });
+    if let Some(Ok(mut r)) = opened {
+        let _ = j.call("Reader::read_as(noshx)", || on_type!(ty, S => r.read_as::<S, shapefile::dbase::Record>().map(|v| v.len()).unwrap_or(0), 0));
+    }
     j.outcomes
 }
 
@@ -313,7 +351,11 @@ pub fn execute(scn: &CorScn, ctx: &mut Ctx) {
     let mut shx = b.shx.clone();
     apply(&scn.muts, &mut shp, &mut shx);
     let field = if matches!(scn.base, Base::Raw { .. }) && scn.muts.is_empty() { "consistent-unbacked-count".to_string() } else { describe(&scn.muts, &b) };
-    drive(ctx, &shp, &shx, &b.dbf, b.ty, b.n, scn.rbuf, &field);
+    let mut dbf = b.dbf.clone();
+    if scn.dbf_rows > 0 && dbf.len() >= 8 {
+        dbf[4..8].copy_from_slice(&scn.dbf_rows.to_le_bytes());
+    }
+    drive(ctx, &shp, &shx, &dbf, b.ty, b.n, scn.rbuf, &field);
 }
 
 /// Field id + value class of the mutations (fingerprint material; survives unrelated edits).
@@ -380,12 +422,12 @@ pub fn unit(seed: u64, ctx: &mut Ctx, ctl: &mut UnitCtl) {
     let base = Base::Written(w);
     let Some(b) = produce(&base) else {
         ctx.fail("HARNESS", "invalid-scenario", "base", "generated base file cannot be produced".to_string());
-        ctl.after_case(ctx, || Scenario::Corrupt(CorScn { base: base.clone(), muts: vec![], rbuf: 0 }));
+        ctl.after_case(ctx, || Scenario::Corrupt(CorScn { base: base.clone(), muts: vec![], rbuf: 0, dbf_rows: 0 }));
         return;
     };
     let rbuf = *r.pick(&[0u32, 0, 0, 9, 8192]);
     let mut case = |muts: Vec<Mutation>, ctx: &mut Ctx, ctl: &mut UnitCtl| {
-        if !ctl.before_case(|| Scenario::Corrupt(CorScn { base: base.clone(), muts: muts.clone(), rbuf })) {
+        if !ctl.before_case(|| Scenario::Corrupt(CorScn { base: base.clone(), muts: muts.clone(), rbuf, dbf_rows: 0 })) {
             return;
         }
         ctx.stats.evaluations += 1;
@@ -405,7 +447,7 @@ pub fn unit(seed: u64, ctx: &mut Ctx, ctl: &mut UnitCtl) {
         if ctx.stats.samples.len() < 3 && muts.len() == 1 && ctl.case_no % 97 == 5 {
             ctx.stats.samples.push(serde_json::json!({"base_type": type_name(b.ty), "records": b.n, "mutation": muts, "field": field, "outcome_signature": outcome}));
         }
-        ctl.after_case(ctx, || Scenario::Corrupt(CorScn { base: base.clone(), muts: muts.clone(), rbuf }));
+        ctl.after_case(ctx, || Scenario::Corrupt(CorScn { base: base.clone(), muts: muts.clone(), rbuf, dbf_rows: 0 }));
     };
     case(vec![], ctx, ctl);
     // every field x every boundary value
@@ -669,7 +711,7 @@ pub fn ladder_unit(unit: u64, ctx: &mut Ctx, ctl: &mut UnitCtl) {
         for (note, shapes) in specs {
             let w = WProg { calls: (0..shapes.len()).map(WCall::W).collect(), shapes, others: vec![], ending: Ending::Drop, with_shx: true, stack: StackCfg::Direct };
             for rbuf in [0u32, 8192] {
-                let scn = CorScn { base: Base::Written(w.clone()), muts: vec![], rbuf };
+                let scn = CorScn { base: Base::Written(w.clone()), muts: vec![], rbuf, dbf_rows: 0 };
                 if !ctl.before_case(|| Scenario::Corrupt(scn.clone())) {
                     continue;
                 }
@@ -746,9 +788,30 @@ pub fn ladder_unit(unit: u64, ctx: &mut Ctx, ctl: &mut UnitCtl) {
             }
         }
     }
+    if unit == 13 {
+        // a small valid data set next to a .dbf whose header declares rows that are not there
+        let mut shp = hdr(1, 64);
+        shp.extend_from_slice(&1i32.to_be_bytes());
+        shp.extend_from_slice(&10i32.to_be_bytes());
+        shp.extend_from_slice(&1i32.to_le_bytes());
+        shp.extend_from_slice(&[0u8; 16]);
+        let mut shx = hdr(1, 54);
+        shx.extend_from_slice(&50i32.to_be_bytes());
+        shx.extend_from_slice(&10i32.to_be_bytes());
+        for rows in [1_000u32, 1_000_000, 100_000_000, u32::MAX] {
+            let scn = CorScn { base: Base::Raw { shp: shp.clone(), shx: shx.clone(), note: format!("a .dbf header declaring {} rows, one present", rows) }, muts: vec![], rbuf: 0, dbf_rows: rows };
+            if !ctl.before_case(|| Scenario::Corrupt(scn.clone())) {
+                continue;
+            }
+            ctx.stats.evaluations += 1;
+            ctx.stats.fault("dbf-row-count", 1);
+            execute(&scn, ctx);
+            ctl.after_case(ctx, || Scenario::Corrupt(scn.clone()));
+        }
+    }
     for (note, shp, shx) in inputs {
         for rbuf in [0u32, 8192] {
-            let scn = CorScn { base: Base::Raw { shp: shp.clone(), shx: shx.clone(), note: note.clone() }, muts: vec![], rbuf };
+            let scn = CorScn { base: Base::Raw { shp: shp.clone(), shx: shx.clone(), note: note.clone() }, muts: vec![], rbuf, dbf_rows: 0 };
             if !ctl.before_case(|| Scenario::Corrupt(scn.clone())) {
                 continue;
             }
